@@ -327,7 +327,11 @@ func genHistory(t *Tape, k *Knobs, m mix, n int) []Step {
 			steps = append(steps, Step{Op: "jwt_bearer", C: t.Intn(2), D: int64(t.Intn(4)), P: map[string]string{"scope": t.Pick([]string{"", "photos", "mail.read", "photos mail.read"})}})
 		case 16:
 			v := t.Pick([]string{"drop_scope:photos", "drop_scope:offline", "drop_scope:users.*", "drop_scope:openid", "drop_aud:https://api.sim/v1", "drop_all_aud", "drop_grant:refresh_token", "drop_scope:mail.read", "drop_aud:https://files.sim"})
-			steps = append(steps, Step{Op: "client_change", C: t.Intn(nc), V: v})
+			cc := Step{Op: "client_change", C: t.Intn(nc), V: v}
+			if t.Chance(50) {
+				cc.P = map[string]string{"how": "replace"}
+			}
+			steps = append(steps, cc)
 		case 17:
 			secretN++
 			v := t.Pick([]string{"keep_old", "keep_old", "forget_old", "drop_rotated", "reverse_rotated"})
